@@ -7,6 +7,7 @@ mod ops_gen;
 mod rng;
 mod val;
 mod hist;
+mod grid;
 mod oracle;
 mod oracle2;
 mod oracle3;
@@ -90,6 +91,13 @@ fn main() {
                     writeln!(out, "{}", line(&format!("oracle.{}.{}", c.prop, c.name), &a)).unwrap();
                 }
             }
+        }
+        "gen-grid" => {
+            // exhaustive grids (DESIGN §8): C04 blade differences in [-2^12, 2^12] x remainder-gap classes; C07 all operation
+            // sequences up to --depth over a 14-letter alphabet from 24 start states
+            let prop = arg(&args, "--prop").unwrap_or("");
+            let depth: usize = arg(&args, "--depth").and_then(|s| s.parse().ok()).unwrap_or(3);
+            for l in grid::grid(prop, depth) { writeln!(out, "{}", l).unwrap(); }
         }
         "list-oracle" => { for c in oracle::clauses() { writeln!(out, "{} {} {}", c.prop, c.name, c.sig).unwrap(); } }
         _ => { eprintln!("usage: gharness list|gen|run"); std::process::exit(2); }
